@@ -40,6 +40,7 @@ struct W {
   pkt_rec pk[MAXPK]; int npk = 0;
   int writes_completed = 0;
   bool client_wrote_garbage = false;
+  int rx_leniency = 0;          // hostile-input harnesses: the client echoes a packet identifier 0 it was sent (ref::L_PID0)
   // ---- application side
   op_rec ops[MAXOPS]; int nops = 0;
   asio::cancellation_signal sig[MAXOPS];
@@ -63,7 +64,7 @@ struct W {
   void lose_write(vk::sock_rec* s) { writes_completed++; vk::complete_write(s, s->wdata.size(), {}); }
   void parse_rx() {
     while (rx_parsed < rx_n) {
-      ref::packet k; int rv = ref::decode(rx + rx_parsed, rx_n - rx_parsed, k);
+      ref::packet k; int rv = ref::decode(rx + rx_parsed, rx_n - rx_parsed, k, rx_leniency);
       if (rv == ref::INCOMPLETE) break;
       if (rv == ref::BAD) { client_wrote_garbage = true; vk_assert(false, "client wrote bytes that are not a well-formed MQTT 5 packet (reference decoder)"); rx_parsed = rx_n; break; }
       vk_assert(npk < MAXPK, "harness: packet log capacity");
